@@ -40,6 +40,8 @@ class LongQuicPacket(QuicPacket):
         self.dcid = dcid
         self.scid_len = scid_len
         self.scid = scid
+        # Retry and Version Negotiation packets have no packet number
+        self.packet_num = packet_num
 
         match packet_type:
             case QuicPacketType.INITIAL:
